@@ -251,6 +251,8 @@ func (c *Conn) ping(ctx context.Context, p string) error {
 		return net.ErrClosed
 	case <-ctx.Done():
 		c.vEvS("PingResCtx", p, 0)
+		// As documented on Conn, a context that expires during a call closes the connection.
+		c.close()
 		return fmt.Errorf("failed to wait for pong: %w", ctx.Err())
 	case <-pong:
 		c.vEvS("PingResPong", p, 0)
@@ -295,6 +297,10 @@ func (m *mu) lock(ctx context.Context) error {
 		return net.ErrClosed
 	case <-ctx.Done():
 		m.vEv("LockFailCtx", vCtxID(ctx))
+		// As documented on Conn, a context that expires during a call closes the connection;
+		// otherwise a writer that gives up here leaves the message lock held for good.
+		// close waits for the locks this goroutine may itself be holding, hence asynchronously.
+		go m.c.close()
 		return fmt.Errorf("failed to acquire lock: %w", ctx.Err())
 	case m.ch <- struct{}{}:
 		// To make sure the connection is certainly alive.
